@@ -148,6 +148,12 @@ def _violate(r, desc, v, target, info=None):
         new = _violate(r, desc, v, [0], None)
         info.append((k, new))
         return new
+    if k == 'INTEGER' and 'except' in con and hit and r.random() < 0.7:
+        (a, b), v1 = con['except']
+        return r.choice([a, b, v1, v1])          # excluded by one of the operands only
+    if k == 'INTEGER' and 'union' in con and hit:
+        (a1, b1), (a2, b2) = con['union'][0], con['union'][-1]
+        return r.choice([b1 + 1, a2 - 1, a1 - 1, b2 + 1, b2 + 2 ** 40])      # in the gap or just outside
     if k == 'INTEGER' and 'refine_values' in con and hit and r.random() < 0.6:
         # inside the inherited range, outside the refinement
         lo, hi = con['range']
